@@ -20,7 +20,7 @@ RULE = ("[plus the shared recompute-after-history monitor: this property's opera
 	"same-kind, wider-kind and None fill values. distinct = (family, operator, form, kind, None mask).")
 ASSUMPTIONS = [
 	"a case is constrained only when Python defines the operation on the None-free operands",
-	"v (op) None with a None scalar is not judged",
+	"v == None / v != None with the scalar None: only the None positions are judged (False there); the other positions are C07's (Python's own comparison)",
 	"fillna with a value of an unrelated kind may raise; empty schema-less vectors are not fed to dropna/fillna",
 	"float reductions are compared with math.isclose(rel_tol=1e-9)",
 ]
@@ -561,8 +561,79 @@ def run_group_reduce_count(chk, spec):
 	if o.ok and list(o.value._underlying) != [x is None for x in vals]:
 		chk.fail("isna marks exactly the None positions", "na/isna-wrong/eq-all-objects", f"{spec!r}: isna {list(o.value)!r}")
 
+def run_compare_none_scalar(chk, spec):
+	"""v == None / v != None (and the reflected spellings): whatever the library answers at the other positions, at a None element EVERY comparison is
+	False - != included (a constant all-True answer to != is wrong exactly there)"""
+	import operator, warnings
+	a = list(spec["a"])
+	v = Vector(list(a))
+	op = {"eq": operator.eq, "ne": operator.ne}[spec["opname"]]
+	with warnings.catch_warnings():
+		warnings.simplefilter("ignore")
+		o = call(lambda: op(v, None) if spec["form"] == "vs" else op(None, v))
+	chk.judged("compare-none", ("compare-none-scalar", spec["opname"], spec["form"], spec["kind"], spec["mask"]))
+	if not o.ok or not isinstance(o.value, Vector):
+		return
+	got = list(o.value._underlying)
+	if len(got) != len(a):
+		chk.fail("a comparison has one answer per element", f"compare/none-scalar/length/{spec['opname']}", f"Vector({a!r}) {spec['opname']} None -> {got!r}")
+		return
+	bad = [i for i, x in enumerate(a) if x is None and got[i] is not False]
+	if bad:
+		chk.fail("a None element makes every comparison at its position False", f"compare/none-scalar/true-at-none/{spec['opname']}/{spec['form']}", f"Vector({a!r}) {spec['opname']} None -> {got!r}: position {bad[0]} holds None")
 
-RUNNERS = {"group_reduce_count": run_group_reduce_count, "row_none": run_row_none, "arith_meta": run_arith_meta, "arith_none": run_arith_none, "compare_none": run_compare_none, "compare_meta": run_compare_meta, "reduce": run_reduce,
+def run_group_same_name(chk, spec):
+	"""two operands of one aggregate / window call that carry the SAME name but hold None at different positions (the two 'v' columns of a join
+	result, a column next to a copy of it that was written): each is reduced over its own values - None skipped per operand, not per name"""
+	import warnings
+	keys, x, y = list(spec["keys"]), list(spec["x"]), list(spec["y"])
+	n = len(keys)
+	how = spec["how"]
+	with warnings.catch_warnings():
+		warnings.simplefilter("ignore")
+		if how == "copy-written":
+			t = Table([Vector(list(keys), name="k"), Vector(list(x), name="v")])
+			a = t["v"]
+			b = Vector(list(y), name="v")
+		elif how == "repeated-name-columns":
+			t = Table([Vector(list(keys), name="k"), Vector(list(x), name="v"), Vector(list(y), name="v")])
+			a, b = t.cols()[1], t.cols()[2]
+		else:      # external twins: both operands are vectors outside the table
+			t = Table([Vector(list(keys), name="k")])
+			a, b = Vector(list(x), name="v"), Vector(list(y), name="v")
+		fn = spec["fn"]
+		o = call(lambda: getattr(t, spec["opn"])(over="k", **{f"{fn}_over": [a, b]}))
+	chk.judged("group-reduce", ("group-same-name", spec["opn"], fn, how, n))
+	groups = {}
+	for i, k in enumerate(keys):
+		groups.setdefault(k, []).append(i)
+	def red(vals):
+		vs = [v for v in vals if v is not None]
+		if fn == "count":
+			return len(vs)
+		if not vs:
+			return None if fn != "sum" else 0
+		return {"sum": sum, "min": min, "max": max}[fn](vs)
+	if not o.ok:
+		chk.fail("per-group aggregates skip None", f"group-reduce/raises/same-name-operands/{spec['opn']}/{fn}/{type(o.exc).__name__}", f"{spec!r} raised {o!r}")
+		return
+	cols = [list(c._underlying) for c in o.value.cols()]
+	if len(cols) < 3:
+		chk.fail("every operand gets its own result column", f"group-reduce/same-name-operands/columns-missing/{spec['opn']}", f"{spec!r}: {short(cols, 160)}")
+		return
+	kc, ca, cb = cols[0], cols[-2], cols[-1]
+	for r, gk in enumerate(kc):
+		idxs = groups.get(gk, [])
+		ea, eb = red([x[i] for i in idxs]), red([y[i] for i in idxs])
+		ga, gb = ca[r], cb[r]
+		if fn == "sum" and ((ea == 0 and ga is None) or (eb == 0 and gb is None)):
+			continue     # sum of an all-None group: 0 or None both seen as "skipped"
+		if ga != ea or gb != eb:
+			chk.fail("per-group aggregates skip None (per operand)", f"group-reduce/value/same-name-operands/{spec['opn']}/{fn}", f"{spec!r}: row {r} key {gk!r}: got ({ga!r}, {gb!r}), expected ({ea!r}, {eb!r})")
+			return
+
+
+RUNNERS = {"group_same_name": run_group_same_name, "compare_none_scalar": run_compare_none_scalar, "group_reduce_count": run_group_reduce_count, "row_none": run_row_none, "arith_meta": run_arith_meta, "arith_none": run_arith_none, "compare_none": run_compare_none, "compare_meta": run_compare_meta, "reduce": run_reduce,
 	"group_reduce": run_group_reduce, "na": run_na}
 RUNNERS["recompute"] = recompute.runner("C06")
 
@@ -578,6 +649,17 @@ def all_masks(maxlen=5):
 def run(chk):
 	recompute.add_cases(chk, "C06")
 	rng = chk.rng
+	for opn in ("window", "aggregate"):
+		for fn in ("sum", "count", "min", "max"):
+			for how in ("copy-written", "repeated-name-columns", "external-twins"):
+				for _ in range(3 if chk.quick() else 12):
+					n = rng.choice([3, 4, 6])
+					keys = [rng.choice(["a", "b"]) for _ in range(n)]
+					x = [rng.choice([1, 2, 5, None]) for _ in range(n)]
+					y = [rng.choice([10, 20, None, None]) for _ in range(n)]
+					x[0], y[0] = 3, None
+					x[-1], y[-1] = None, 30
+					chk.case("group_same_name", {"keys": keys, "x": x, "y": y, "opn": opn, "fn": fn, "how": how}, "group-same-name")
 	idx = 0
 	for mask in all_masks():
 		n = len(mask)
@@ -624,6 +706,9 @@ def run(chk):
 					else:
 						b = masked([rng.choice(ARITH_VALUES[kind]) for _ in range(n)], [rng.random() < 0.25 for _ in range(n)])
 					chk.case("compare_none", {"op": "arith", "opname": opname, "form": form, "a": a, "b": b, "kind": kind, "mask": ms}, "compare-none")
+			for opname in ("eq", "ne"):
+				for form in ("vs", "sv"):
+					chk.case("compare_none_scalar", {"a": a, "opname": opname, "form": form, "kind": kind, "mask": ms}, "compare-none-scalar")
 			if kind in ("date", "datetime"):
 				for opname in CMP_OPS:
 					others = [rng.choice(ARITH_VALUES[kind]), [rng.choice(ARITH_VALUES[kind]) for _ in range(n)]]
